@@ -11,7 +11,7 @@ Which untrusted strings become host paths, and why each of them stays inside its
 | `os.MkdirAll(cacheDir)`, `expand-apk*`, `stream-N.tar(.gz)` | entry + constants + counters | `pkg_cache_writes_within_root`, `tie_expand_names` |
 | `<hex>.ctl/.sig/.dat.tar.gz`, `.dat.tar` (`cachePackage`) | entry + `hex.EncodeToString` of digests apko computed | `pkg_cache_writes_within_root`, `tie_cachePackage_paths` |
 | `<datahash>.dat.tar.gz` (`cachedPackage`) | entry + the `datahash` STRING of a cached control section | `pkg_dat_file_within` (**false** in full: `not_pkg_dat_file_within`), `pkg_dat_file_within_partial`; only hex strings or the empty string are let into the cache (`tie_verifyExpanded_datahash`), and a non-hex string ends `cachedPackage` after `os.Stat`, before any write (`tie_cachedPackage_dat_order`) |
-| `sbom-<arch>.<ext>`, `apko-<arch>.tar.gz`, `<wd>/<arch>` | architecture string of the configuration / command line | `arch_paths_within` (**false** in full: `not_arch_paths_within`), `arch_paths_within_partial`; `tie_arch_names` |
+| `sbom-<arch>.<ext>`, `apko-<arch>.tar.gz`, `<wd>/<arch>`, base-image `<dir>/<arch>/APKINDEX` | `ToAPK` of the architecture string of the configuration / command line | `arch_paths_within` (every string; F18f repaired: `toAPK_plain`), `arch_paths_within_pinned` (**false**: `not_arch_paths_within_pinned`, `arch_paths_escape`); `tie_arch_names`, `tie_parseArchitecture` |
 | image-root files (`etc/apk/world`, `lib/apk/db/installed`, `scripts.tar`, `triggers`) | constants (the hostile fields are *content*) | `dirfs_lexical` |
 -/
 namespace Apko.C18
@@ -220,36 +220,39 @@ theorem pkg_dat_file_hex {root d : Text} (bs : List Nat) (hd : isAbs d = true) (
 
 example : pkgDatFile (T "/t/cache/r/x86_64/p-1") (T "../../../../canary/x") = T "/t/canary/x.dat.tar.gz" := by decide
 
-/-! ## files named after the architecture -/
+/-! ## files named after the architecture (F18f, repaired) -/
 
-/-- Full statement (**false**: `types.ParseArchitecture` returns an unknown string as it is,
-`tie_arch_names`): the SBOM, the layer tarball and the per-architecture working directory lie within the
-directory they are created in, whatever the architecture string is -/
-def arch_paths_within : Prop :=
+/-- the pinned tree's statement (**false**: `types.ParseArchitecture` returned an unknown string as it was, and
+that string went into the names): the SBOM, the layer tarball and the per-architecture working directory lie
+within the directory they are created in, whatever string stands where the architecture stands -/
+def arch_paths_within_pinned : Prop :=
   ∀ (dir arch extn : Text), isAbs dir = true →
     Within dir (sbomFile dir arch extn) ∧ Within dir (layerTarFile dir arch) ∧ Within dir (archWorkDir dir arch)
 
-theorem not_arch_paths_within : ¬ arch_paths_within := by
+theorem not_arch_paths_within_pinned : ¬ arch_paths_within_pinned := by
   intro h
   have := (h (T "/t/out") (T "../../../canary/x") (T "spdx.json") (by decide)).1.1
   revert this
   decide
 
-/-- the escapes, spelled out: `sbom-..` and `apko-..` are ordinary components that the second `..` removes -/
+/-- the escapes of the pinned expressions, spelled out: `sbom-..` and `apko-..` are ordinary components that the
+second `..` removes -/
 theorem arch_paths_escape :
     sbomFile (T "/t/out") (T "../../../canary/x") (T "spdx.json") = T "/t/canary/x.spdx.json"
     ∧ layerTarFile (T "/t/tmp") (T "../../../canary/x") = T "/t/canary/x.tar.gz"
     ∧ archWorkDir (T "/t/tmp/apko-1") (T "../../canary/x") = T "/t/canary/x" := by decide
 
-/-- what holds: an architecture string without separator names one file directly inside the directory (for the
-working directory it must also be a component `Clean` keeps) -/
+theorem within_clean_self {dir : Text} (hd : isAbs dir = true) : Within dir (clean dir) := by
+  obtain ⟨C, hC, hc, _⟩ := clean_abs_normal hd
+  rw [Within, hc, parts_absOf hC]
+  exact ⟨List.prefix_refl _, fun c hcm => ⟨(hC c hcm).1.2.2, (hC c hcm).1.2.1⟩⟩
+
+/-- a string without separator in the place of the architecture names one file directly inside the directory
+(for the working directory it must also be a component `Clean` keeps) -/
 theorem arch_paths_within_partial {dir arch extn : Text} (hd : isAbs dir = true) (ha : '/' ∉ arch) (he : '/' ∉ extn) :
     Within dir (sbomFile dir arch extn) ∧ Within dir (layerTarFile dir arch)
       ∧ (Normal arch → Within dir (archWorkDir dir arch)) := by
-  have hw : Within dir (clean dir) := by
-    obtain ⟨C, hC, hc, _⟩ := clean_abs_normal hd
-    rw [Within, hc, parts_absOf hC]
-    exact ⟨List.prefix_refl _, fun c hcm => ⟨(hC c hcm).1.2.2, (hC c hcm).1.2.1⟩⟩
+  have hw : Within dir (clean dir) := within_clean_self hd
   refine ⟨?_, ?_, ?_⟩
   · have hn : Normal (T "sbom-" ++ arch ++ T "." ++ extn) ∧ '/' ∉ (T "sbom-" ++ arch ++ T "." ++ extn) := by
       have := entry_name_normal (h := []) (suf := T "sbom-" ++ arch ++ T "." ++ extn) (by simp)
@@ -262,6 +265,103 @@ theorem arch_paths_within_partial {dir arch extn : Text} (hd : isAbs dir = true)
     exact (pkg_entry_file_within hd hw hn).1
   · intro hn
     exact (pkg_entry_file_within hd hw ⟨hn, ha⟩).1
+
+/-- the escaped form has neither separators nor dots -/
+theorem escapeArch_plain (s : Text) : '/' ∉ escapeArch s ∧ '.' ∉ escapeArch s := by
+  unfold escapeArch
+  constructor <;> intro hm <;> obtain ⟨c, _, hc⟩ := List.mem_flatMap.1 hm
+  · split at hc
+    · revert hc; decide
+    · split at hc
+      · revert hc; decide
+      · next h1 _ => simp at hc; exact h1 hc.symm
+  · split at hc
+    · revert hc; decide
+    · split at hc
+      · revert hc; decide
+      · next _ h2 => simp at hc; exact h2 hc.symm
+
+/-- `ParseArchitecture` (repaired) yields one of the two constants that contain a separator — which `ToAPK`
+maps to `armhf` / `armv7` — or one plain path element (possibly the empty string) -/
+theorem parseArch_cases (s : Text) :
+    parseArch s = T "arm/v6" ∨ parseArch s = T "arm/v7"
+      ∨ ('/' ∉ parseArch s ∧ parseArch s ≠ dot ∧ parseArch s ≠ dotdot) := by
+  unfold parseArch
+  split
+  · right; right; decide
+  · split
+    · right; right; decide
+    · split
+      · right; right; decide
+      · split
+        · left; rfl
+        · split
+          · right; left; rfl
+          · split
+            · right; right; decide
+            · split
+              · right; right
+                obtain ⟨h1, h2⟩ := escapeArch_plain s
+                refine ⟨h1, ?_, ?_⟩
+                · intro e; rw [e] at h2; revert h2; decide
+                · intro e; rw [e] at h2; revert h2; decide
+              · next hn =>
+                right; right
+                exact ⟨fun h => hn (Or.inr (Or.inr h)), fun h => hn (Or.inl h), fun h => hn (Or.inr (Or.inl h))⟩
+
+/-- **toAPK_plain**: whatever string is held as an architecture (from the configuration, from `--arch`, or
+cast by a library user), the name `ToAPK` derives from it is one plain path element or empty -/
+theorem toAPK_plain (a : Text) : '/' ∉ toAPK a ∧ toAPK a ≠ dot ∧ toAPK a ≠ dotdot := by
+  unfold toAPK
+  simp only
+  split
+  · decide
+  · split
+    · decide
+    · split
+      · decide
+      · split
+        · decide
+        · next h6 =>
+          split
+          · decide
+          · next h7 =>
+            split
+            · decide
+            · rcases parseArch_cases a with e | e | e
+              · exact absurd e h6
+              · exact absurd e h7
+              · exact e
+
+/-- **arch_paths_within** (the full statement, for the repaired code): for every directory and EVERY architecture
+string the SBOM `sbom-<arch>.<ext>`, the layer tarball `apko-<arch>.tar.gz` and the per-architecture working
+directory `<wd>/<arch>` — all made of `ToAPK` (`tie_arch_names`) — lie within the directory they are created in -/
+theorem arch_paths_within (dir a extn : Text) (hd : isAbs dir = true) (he : '/' ∉ extn) :
+    Within dir (sbomFile dir (toAPK a) extn) ∧ Within dir (layerTarFile dir (toAPK a))
+      ∧ Within dir (archWorkDir dir (toAPK a)) := by
+  obtain ⟨h1, h2, h3⟩ := toAPK_plain a
+  obtain ⟨p1, p2, p3⟩ := arch_paths_within_partial (extn := extn) hd h1 he
+  refine ⟨p1, p2, ?_⟩
+  by_cases hne : toAPK a = []
+  · -- `Join(wd, "")` is the directory itself
+    rw [hne]
+    obtain ⟨hj, ha⟩ := join2_abs [] hd
+    have e : dir ++ slash ++ [] = dir ++ '/' :: [] := by simp [slash]
+    rw [e] at ha
+    unfold archWorkDir
+    rw [hj, e, clean_abs_stk ha, stk_append_sep, stk_nil, ← clean_abs_stk hd]
+    exact within_clean_self hd
+  · exact p3 ⟨hne, h2, h3⟩
+
+/-- the witnesses of the pinned tree, on the repaired code -/
+example : toAPK (T "../../../canary/x") = T "%2E%2E%2F%2E%2E%2F%2E%2E%2Fcanary%2Fx"
+    ∧ sbomFile (T "/t/out") (toAPK (T "../../../canary/x")) (T "spdx.json") = T "/t/out/sbom-%2E%2E%2F%2E%2E%2F%2E%2E%2Fcanary%2Fx.spdx.json"
+    ∧ archWorkDir (T "/t/tmp/apko-1") (toAPK (T "..")) = T "/t/tmp/apko-1/%2E%2E" := by decide
+
+/-- known and unknown-but-plain names are what they were -/
+example : toAPK (T "amd64") = T "x86_64" ∧ toAPK (T "arm/v6") = T "armhf" ∧ toAPK (T "armhf") = T "armhf"
+    ∧ toAPK (T "loongarch64") = T "loongarch64" ∧ toAPK (T "mips64") = T "mips64" ∧ toAPK (T "riscv64") = T "riscv64"
+    ∧ toAPK [] = [] := by decide
 
 example : sbomFile (T "/t/out") (T "x86_64") (T "spdx.json") = T "/t/out/sbom-x86_64.spdx.json" := by decide
 
@@ -355,16 +455,31 @@ theorem tie_expand_names :
     ∧ Generated.packageDataCreates = ["os.CreateTemp(filepath.Dir(a.TarFile), filepath.Base(a.TarFile)+\".*.tmp\")", "os.Rename(uf.Name(), a.TarFile)"] := by
   refine ⟨by rfl, by rfl, by rfl, by rfl, by rfl⟩
 
-/-- the names derived from the architecture (`sbomFile`, `layerTarFile`, `archWorkDir`), and that an unknown
-architecture string is taken as it is -/
+/-- the names derived from the architecture (`sbomFile`, `layerTarFile`, `archWorkDir`) are made of `ToAPK` -/
 theorem tie_arch_names :
     Generated.sbomFileNameAssigns = ["fmt.Sprintf(\"sbom-%s\", o.Arch.ToAPK())"]
     ∧ Generated.sbomFilePaths = ["filepath.Join(s.OutputDir, s.FileName+\".\"+gen.Ext())"]
     ∧ Generated.sbomIndexFilePaths = ["filepath.Join(s.OutputDir, fmt.Sprintf(\"sbom-%s.%s\", arch.ToAPK(), gen.Ext()))",
         "filepath.Join(s.OutputDir, \"sbom-index.\"+gen.Ext())"]
     ∧ Generated.tarballFileNames = ["\"apko.tar.gz\"", "fmt.Sprintf(\"apko-%s.tar.gz\", o.Arch.ToAPK())"]
-    ∧ Generated.parseArchitectureDefault = "return Architecture(s)"
-    ∧ Generated.lockArchWorkDir = ["os.MkdirTemp(\"\", \"apko-*\")", "filepath.Join(wd, arch.ToAPK())"] := by
+    ∧ Generated.lockArchWorkDir = ["os.MkdirTemp(\"\", \"apko-*\")", "filepath.Join(wd, arch.ToAPK())"]
+    ∧ Generated.archPathJoins = ["LockCmd: filepath.Join(wd, arch.ToAPK())", "DotCmd: filepath.Join(wd, arch.ToAPK())",
+        "New: path.Join(apkIndexPath, arch.ToAPK(), \"APKINDEX\")",
+        "BaseImage.createAPKIndexArchive: path.Join(apkIndexTargetPath, baseImg.arch.ToAPK())",
+        "BaseImage.createAPKIndexArchive: path.Join(archDir, \"APKINDEX.tar.gz\")"] := by
   refine ⟨by rfl, by rfl, by rfl, by rfl, by rfl, by rfl⟩
+
+/-- `ParseArchitecture` and `ToAPK` as modelled by `parseArch` / `toAPK` (F18f repaired: a string that is not one
+plain path element is escaped), and the constants the two switches speak about -/
+theorem tie_parseArchitecture :
+    Generated.stmtsParseArchitecture = [
+      "switch s { case \"x86\": return _386 case \"x86_64\", \"amd64\": return amd64 case \"aarch64\", \"arm64\": return arm64 case \"armhf\", \"arm/v6\": return armv6 case \"armv7\", \"arm/v7\": return armv7 case \"loong64\", \"loongarch64\": return loong64 }",
+      "if s == \".\" || s == \"..\" || strings.Contains(s, \"/\") { s = strings.NewReplacer(\"/\", \"%2F\", \".\", \"%2E\").Replace(s) }",
+      "return Architecture(s)"]
+    ∧ Generated.stmtsArchToAPK = [
+      "switch a := ParseArchitecture(a.String()); a { case _386: return \"x86\" case amd64: return \"x86_64\" case arm64: return \"aarch64\" case armv6: return \"armhf\" case armv7: return \"armv7\" case loong64: return \"loongarch64\" default: return string(a) }"]
+    ∧ Generated.archConstants = [("_386", "Architecture(\"386\")"), ("amd64", "Architecture(\"amd64\")"), ("arm64", "Architecture(\"arm64\")"),
+        ("armv6", "Architecture(\"arm/v6\")"), ("armv7", "Architecture(\"arm/v7\")"), ("loong64", "Architecture(\"loong64\")")] := by
+  refine ⟨by rfl, by rfl, by rfl⟩
 
 end Apko.C18
